@@ -382,3 +382,67 @@ def c17_4(I, shape):
         I.check(isinstance(exc, TLSFingerprintError) and len(sent) == 1 and
                 sent[0][0] == ContentType.alert,
                 "checker-failure-sends-alert-and-fails-the-call")
+
+
+class DeadSock(FaultSock):
+    """transport that is gone for good: every send/sendall raises EPIPE"""
+
+    def send(self, d):
+        self.sends += 1
+        raise socket.error(32, "broken pipe")
+
+    def sendall(self, d):
+        self.sends += 1
+        raise socket.error(32, "broken pipe")
+
+
+@obligation("C17.5", lambda tier: [dict(buffered=b, n=n) for b in (True, False)
+                                   for n in (1, 2)],
+            functions=["tlslite.bufferedsocket:BufferedSocket.flush",
+                       "tlslite.bufferedsocket:BufferedSocket.send",
+                       "tlslite.bufferedsocket:BufferedSocket.close",
+                       "tlslite.tlsrecordlayer:TLSRecordLayer._sendMsgs",
+                       "tlslite.tlsrecordlayer:TLSRecordLayer._shutdown",
+                       "tlslite.tlsconnection:TLSConnection."
+                       "_handshakeWrapperAsync"],
+            assumes=CONN_ASSUMES + [
+                "the transport fails persistently (every send raises EPIPE) "
+                "while a coalesced flight of n handshake messages is flushed "
+                "or sent unbuffered; the peer has sent nothing"],
+            patches=lambda s: (conn_proxies(), []))
+def c17_5(I, shape):
+    """a persistent transport failure during a flight still ends with the
+    raw socket closed, the connection closed and the session invalidated"""
+    from tlslite.messages import ServerHelloDone, Finished
+    from tlslite.session import Session
+    sock = DeadSock([])
+    conn, sock = make_conn((3, 3), False, sock=sock, session=False)
+    conn.closed = True
+    conn.session = Session()
+    conn.session.resumable = True
+    msgs = [ServerHelloDone().create()] + \
+        [Finished((3, 3)).create(I.bytes(12, "vd"))][:shape["n"] - 1]
+
+    def handshaker():
+        if shape["buffered"]:
+            for r in conn._sendMsgs(msgs):
+                yield r
+        else:
+            for m in msgs:
+                for r in conn._sendMsg(m):
+                    yield r
+        conn._handshakeDone(False)
+    try:
+        for r in conn._handshakeWrapperAsync(handshaker(), None):
+            pass
+        exc = None
+    except (socket.error, TLSAbruptCloseError) as e:
+        exc = e
+    except Exception as e:
+        I.fail("transport failure surfaced as %s" % type(e).__name__,
+               detail=repr(e))
+        return
+    I.check(exc is not None, "failure-reported")
+    I.check(conn.closed, "connection-closed")
+    I.check(sock.closed, "raw-socket-closed")
+    I.check(conn.session.resumable is False, "session-not-resumable")
